@@ -96,7 +96,23 @@ def prec(ctx, name, jd0, jd1, lon, lat, pm=(0.0, 0.0)):
     """Call precession_<name>; register the tie case; returns (lon', lat') or None."""
     Angle, Epoch, C = _mods()
     try:
-        r = getattr(C, 'precession_' + name)(mk_epoch(jd0), mk_epoch(jd1), Angle(lon), Angle(lat), Angle(pm[0]), Angle(pm[1]))
+        # the proper motions in every documented form (Angle, plain number, left out when zero); the form is a
+        # function of the arguments, so that a replay makes the same call
+        form = int(abs(jd0) * 7.0 + abs(lon) * 13.0 + abs(lat) * 3.0 + abs(pm[0]) * 1e6 + abs(pm[1]) * 1e7) % 6
+        f = getattr(C, 'precession_' + name)
+        a4 = (mk_epoch(jd0), mk_epoch(jd1), Angle(lon), Angle(lat))
+        if form == 1:
+            r = f(*(a4 + (float(pm[0]), float(pm[1]))))
+        elif form == 2:
+            r = f(*(a4 + (Angle(pm[0]), float(pm[1]))))
+        elif form == 3:
+            r = f(*(a4 + (float(pm[0]), Angle(pm[1]))))
+        elif form == 4 and pm[1] == 0.0:
+            r = f(*a4) if pm[0] == 0.0 else f(*(a4 + (float(pm[0]),)))
+        elif form == 5 and pm[0] == int(pm[0]) and pm[1] == int(pm[1]):
+            r = f(*(a4 + (int(pm[0]), int(pm[1]))))
+        else:
+            r = f(*(a4 + (Angle(pm[0]), Angle(pm[1]))))
         v = vals(r)
         out = enc(v)
     except Exception as e:  # noqa
